@@ -12,30 +12,30 @@ chk("C16", "exploration", "exhaustive input-space enumeration against exact-arit
     "DESIGN.md §3 C16")
 
 chk("C01", "exploration", "exhaustive enumeration of frame descriptions vs independent reference encoder",
-    "Four full cartesian sub-products of frame descriptions (header flags x FOpts length x payload kind; every payload length 0..242 x counters x keys x contents; all 65536 DevNonce; all 256 DLSettings x RxDelay x CFList) are built with the real builders under both software crypto variants and compared byte for byte with an independent LoRaWAN 1.0.x encoder on an independent AES/CMAC; forbidden descriptions must be refused. The space is finite once the alphabets are fixed and is enumerated completely.",
+    "Four full cartesian sub-products of frame descriptions (header flags x FOpts length x payload kind; every payload length 0..242 x counters x keys x contents; all 65536 DevNonce; all 256 DLSettings x RxDelay x CFList) are built with the real builders under both software crypto variants and compared byte for byte with an independent LoRaWAN 1.0.x encoder on an independent AES/CMAC; forbidden descriptions (FOpts of 16, 17 and further lengths up to 527 bytes, FOpts with port 0, missing key, short buffer) must be refused. The space is finite once the alphabets are fixed and is enumerated completely.",
     "Trusted: refcodec.rs/refcrypto.rs (self-tested against FIPS-197, SP 800-38A, RFC 4493 at start-up). Keys/addresses/contents outside the alphabets are argued by absence of value-dependent branches.",
     "DESIGN.md §3 C01")
 chk("C02", "model_checking", "explicit-state search over frame mutations executed on the real parser, reference codec as oracle",
-    "States are byte strings; from every built root frame every single mutation (depth 2 in thorough: every pair) of an alphabet of bit flips, FOptsLen rewrites, truncations and appends is applied, and each state is presented to parse / validate_mic / check_mic_and_decrypt_in_place / decrypt_in_place under right, swapped and wrong keys and five counter hints. The reference decides authenticity and the decode; failure must leave the buffer byte-identical; roots must round-trip. Plus every byte string of length 0..3 through the classifier.",
+    "States are byte strings; from every built root frame every single mutation (depth 2 in thorough: every pair) of an alphabet of bit flips, FOptsLen rewrites, truncations and appends is applied, and each state is presented to parse / validate_mic / check_mic_and_decrypt_in_place / decrypt_in_place under right, swapped and wrong keys and five counter hints. The reference decides authenticity and the decode; failure must leave the buffer byte-identical; roots must round-trip; every root is also presented with its MIC recomputed for counters that disagree with the wire counter, and after every successful checked decode the one-call and two-call paths must leave the same bytes and a further decrypt must restore what was received. Plus every byte string of length 0..3 through the classifier.",
     "Trusted: refcodec.rs/refcrypto.rs. Plaintext compared only when the caller's counter hint agrees with the wire half. Strings that are neither short nor within 2 mutations of a built frame are not covered.",
     "DESIGN.md §3 C02")
 chk("C03", "model_checking", "exhaustive append-a-byte tree and truncation grids on the real parsers and MAC-command iterators",
-    "The complete tree of byte strings up to depth 3 is fed to every frame parser and to each of the six MAC-command iterators; on top, MHDR x FCtrl x length 0..40 layout grid and every CID x every truncation point x embedding before/after every defined command, and every status/length of variable-length commands. Oracle: no unwind, iterator yields whole commands that are consecutive prefixes, one error at most then fused, bounded number of next() calls, every accessor callable.",
+    "The complete tree of byte strings up to depth 3 is fed to every frame parser and to each of the six MAC-command iterators; on top, MHDR x FCtrl x length 0..40 layout grid, data MHDRs x FCtrl x every length 6..300 (and around 512 / 1024) as is and with a MIC that verifies, and every CID x every truncation point x embedding before/after every defined command, and every status/length of variable-length commands. Oracle: no unwind, iterator yields whole commands that are consecutive prefixes, one error at most then fused, bounded number of next() calls, every accessor callable.",
     "Trusted: the framing table in c03.rs (spec lengths per CID). Longer strings off the grids are not covered; coverage-guided mutation (sampling) is deliberately not used.",
     "DESIGN.md §3 C03")
 
 chk("C05", "model_checking", "exhaustive enumeration of the counter arithmetic + explicit-state BFS of the real device against a reference acceptor",
-    "(a) the real next_fcnt_down (hook wrapper) is evaluated for all 65536 wire values x every last value in windows around every class of boundary and a stride over the 32-bit range, against the u64 specification rule. (b) BFS over histories of whole uplink transactions on the real nb device; each delivers one frame of an alphabet of fresh / replayed / reordered / far-future / forged / wrong-epoch / oversized frames in RX1 or RX2, from sessions starting at epoch boundaries; a reference acceptor (independent codec + spec rule) decides, and response, remembered counter, delivered plaintext, no-double-accept and monotonicity are checked at every transition.",
+    "(a) the real next_fcnt_down (hook wrapper) is evaluated for all 65536 wire values x every last value in windows around every class of boundary and a stride over the 32-bit range, against the u64 specification rule. (b) BFS over histories of whole uplink transactions on the real nb device; each delivers one frame of an alphabet of fresh / replayed / reordered / far-future / forged / wrong-epoch / oversized frames in RX1 or RX2, from sessions starting at epoch boundaries (uplink counter far from, next to and at exhaustion); a reference acceptor (independent codec + spec rule) decides, and response, remembered counter, delivered plaintext, no-double-accept and monotonicity are checked at every transition.",
     "Trusted: refcodec/refcrypto, spec_next_fcnt in dev.rs. Window size limit taken from the RfConfig the device bound to the window (C10 checks that). (c) the same alphabet on the async device in Class C (idle rxc_listen, receptions while waiting for RX1/RX2, per-window size limits with a fast uplink rate). Depth-bounded (4 transactions; 6 in the thorough tier).",
     "DESIGN.md §3 C05")
 chk("C06", "fault_enumeration", "explicit-state BFS with a radio fault at every radio call position (deviation-bounded), reference codec decodes every transmitted frame",
-    "BFS over histories of uplink transactions and Class C listening on both real front-ends; every transaction is explored with every receive outcome and with a fault at each radio call position (bound 1 quick, 2 thorough) from sessions with counters at 0, 16-bit and 32-bit boundaries. A monitor decodes every frame handed to the radio, recovers its 32-bit counter by MIC verification, and requires strict growth (identical retransmission tolerated), payload encryption under the same counter, and expiry instead of wrap.",
+    "BFS over histories of uplink transactions and Class C listening on both real front-ends; every transaction is explored with every receive outcome and with a deviation at each radio call position - one failing call, or an outage spanning 2-3 consecutive calls / the rest of the public call - (bound 1 quick, 2 thorough), downlinks incl. accepted LinkADRReq with NbTrans 2 / 15, from sessions with counters at 0, 16-bit and 32-bit boundaries. A monitor decodes every frame handed to the radio, recovers its 32-bit counter by MIC verification, and requires strict growth (identical retransmission tolerated), payload encryption under the same counter, and expiry instead of wrap.",
     "Trusted: refcodec/refcrypto; the mocks' fault model (a failing call returns Err once). State key keeps the absolute counter only near boundaries (argument in c06.rs).",
     "DESIGN.md §3 C06")
 
 chk("C07", "model_checking", "self-composition (twin devices) explored by explicit-state BFS; rejection decided by the reference acceptor",
-    "Pair states of two real devices driven with identical events and RNG; twin B additionally receives one candidate frame (random bytes, bit flips of the authentic frame, other session, replays, stale / too-far counters, wrong-epoch MIC, oversized, JoinAccepts under wrong key / wrong length, JoinAccept in a data session, data frame in a join window) at every receive opportunity of every transaction (RX1, RX2; Class C: before RX1, before RX2, idle). Only frames the reference rejects count. The twins are compared in lock-step (responses, radio and timer operations, delivered downlinks, snapshots) for the rest of the history; oversized frames may end the receive procedure.",
-    "Trusted: refcodec/refcrypto and the freshness rule; one injection per history; depth 3 (quick) / 4 (thorough) transactions; nb and async (+Class C) front-ends, ABP and OTAA.",
+    "Pair states of two real devices driven with identical events and RNG; twin B additionally receives one candidate frame (random bytes, bit flips of the authentic frame, other session, replays, stale / too-far counters, wrong-epoch MIC, oversized, JoinAccepts under wrong key / wrong length, JoinAccept in a data session, data frame in a join window) at every receive opportunity of every transaction, joins included (RX1, RX2; Class C: before RX1, before RX2, idle). Only frames the reference rejects count. The twins are compared in lock-step (responses, radio and timer operations, delivered downlinks, snapshots) for the rest of the history; oversized frames may end the receive procedure.",
+    "Trusted: refcodec/refcrypto and the freshness rule; one injection per history; depth 3 (quick) / 4 (thorough) transactions; nb and async (+Class C) front-ends, ABP and OTAA (also OTAA with Class C enabled).",
     "DESIGN.md §3 C07")
 
 chk("C04", "model_checking", "exhaustive one-command-deep value sweep from base states + explicit-state BFS over histories, hang detection via owned fair RNG with draw budget",
@@ -63,12 +63,12 @@ chk("C12", "model_checking", "complete reachable-state graph by BFS with O(1) st
     "DESIGN.md §3 C12")
 
 chk("C08", "model_checking", "exhaustive command-value sweep over short histories on the real device, executable reference MAC model as oracle",
-    "Each case is a history on a fresh real device: base state, 0-2 prior command downlinks, the judged downlink (FOpts or port 0), two uplinks, an acknowledging downlink, one more uplink. The judged streams cover the full value domain of every request the statement lists, LinkADRReq blocks, answer-budget overflows at every position and Class C deliveries. The reference model (refmac over refregion) checks: one answer per handled request in order, whole commands, only trailing answers dropped; each fully acknowledged request changed exactly the commanded fields of the MAC snapshot and each refused one changed nothing (the model replays the device's own answers); unambiguously invalid requests carry a negative bit; sticky answers repeat until an accepted Class A downlink, others are sent once; Class C receptions neither execute nor clear.",
+    "Each case is a history on a fresh real device: base state, 0-2 prior command downlinks, the judged downlink (FOpts or port 0), two uplinks, an acknowledging downlink, one more uplink. The judged streams cover the full value domain of every request the statement lists, LinkADRReq blocks, answer-budget overflows at every position and Class C deliveries (between TX and RX1, and while idle in rxc_listen with the answers of the preceding Class A downlink still unsent). The reference model (refmac over refregion) checks: one answer per handled request in order, whole commands, only trailing answers dropped; each fully acknowledged request changed exactly the commanded fields of the MAC snapshot and each refused one changed nothing (the model replays the device's own answers); unambiguously invalid requests carry a negative bit; sticky answers repeat until an accepted Class A downlink, others are sent once; Class C receptions neither execute nor clear.",
     "Trusted: refmac.rs / refregion.rs. Where RP002 leaves room either answer is accepted. nb runs the full domain, async a stride of it (shared MAC code).",
     "DESIGN.md §3 C08")
 
 chk("C20", "model_checking", "explicit-state BFS with a snapshot/restore at every state (crash point = every state), twin lock-step, exhaustive structural mutation of documents",
-    "BFS over session histories on the real device from sessions whose counters start at 16/32-bit boundaries; at every reached state the session is serialised (serde_json), deserialised, re-serialised (identical document required), compared field by field through the snapshot hook, and a fresh device given the restored session runs in lock-step with a replay of the original for four probe transactions including replays of previously accepted downlinks (uplink bytes, responses, delivered downlinks, session snapshots must agree). Malformed input: every single structural mutation of representative documents (pairs in thorough) must be refused or yield a session on which send / receive / snapshot stay panic-free.",
+    "BFS over session histories on the real device from sessions whose counters start at 16/32-bit boundaries; at every reached state the session is serialised (serde_json), deserialised, re-serialised (identical document required), compared field by field through the snapshot hook, and a fresh device given the restored session runs in lock-step with a replay of the original for four probe transactions including replays of previously accepted downlinks (uplink bytes, responses, delivered downlinks, session snapshots must agree). Malformed input: every single structural mutation of representative documents, the positional (sequence) form of every struct with boundary numbers (pairs in thorough) must be refused or yield a session on which send / receive / snapshot stay panic-free.",
     "Trusted: serde_json, the snapshot hook. Data rate / ADR flag are carried through public setters (not part of Session); the channel plan is not persisted, so radio configurations are not compared.",
     "DESIGN.md §3 C20")
 
@@ -78,7 +78,7 @@ chk("C19", "model_checking", "explicit-state exploration of every command builde
     "DESIGN.md §3 C19")
 
 chk("C15", "exploration", "exhaustive enumeration of SF x BW x chip variant against an exact rational rule, SPI writes decoded",
-    "All 8 spreading factors x 10 bandwidths x {airtime calculator, SX1261, SX1262, STM32WL LP/HP, SX1272, SX1276, LR1110}: the LDRO decision in the parameter structs and the bit the real driver writes on SPI in set_modulation_params (with all 256 prior values of the read-modify-write register for the register-based chips) are compared with 2^SF/BW >= 16.38 ms evaluated in exact rational arithmetic. The space is finite and enumerated completely.",
+    "All 8 spreading factors x 10 bandwidths x {airtime calculator, SX1261, SX1262, STM32WL LP/HP, SX1272, SX1276, LR1110}: the LDRO decision in the parameter structs and the bit the real driver writes on SPI in set_modulation_params (with all 256 prior values of the read-modify-write register for the register-based chips) are compared with 2^SF/BW >= 16.38 ms evaluated in exact rational arithmetic; for the SX127x the bit left in the register file after set_packet_params with every header / CRC / IQ combination; every pair through the LoRa front-end on SX1262 / SX1276 / SX1272 chip models; sequences on one driver instance (prepare, {nothing, completed, listen, reception running, init() = chip reset, sleep cold / warm}, prepare) against a fresh driver. The space is finite and enumerated completely.",
     "Trusted: the decode positions of the LDRO bit (SX126x SetModulationParams byte 4, SX1276 RegModemConfig3 bit 3, SX1272 RegModemConfig1 bit 0, LR11xx SetModulationParam byte 4). Where nominal and true bandwidth disagree (SF8/15.6 kHz) only agreement with the airtime calculator is required.",
     "DESIGN.md §3 C15")
 
@@ -89,7 +89,7 @@ chk("C18", "exploration", "exhaustive enumeration of environment answers (chip-r
 
 chk("C13", "translation_validation", "exhaustive differential execution of the real driver and Semtech's C reference driver over full parameter products",
     "Crate mc13 links Semtech's SWL2001 C drivers (smtc-modem-cores, from the cargo cache) and the real lora-phy drivers against the same register-file SPI double. Per shared operation the full product of its parameter domain is run on both from the same register state: sleep warm/cold, standby, RF frequency (every 100 Hz LoRaWAN channel in thorough, stride over 137-1020 MHz), modulation parameters SF x BW x CR x all 256 prior register values, packet parameters preamble x header x length 0..255 x CRC x IQ x prior values, all 256 sync words, buffer bases, buffer/FIFO writes of every length, TX/RX/CAD start, IRQ masks per mode, every symbol timeout 0..65535, image calibration per band, PA configuration for every power -128..127 x ramp x prior values, status reads, depth-2 sequences of the read-modify-write operations. SX1261/SX1262/STM32WL: equality of the canonical wire form; SX1272/SX1276 (RFO and PA_BOOST): equality of the chip-visible outcome (register bits stated per operation, FIFO stream). An operation that is never compared (all cases rejected) is a machinery failure.",
-    "Sequences of two operations run on ONE driver instance (state cached inside the driver is visible). Trusted: the C reference as packaged; the datasheet PA/image-calibration tables fed to the reference (SWL2001 leaves them to the BSP); documented errata/policy mirrors listed in DESIGN.md §3 C13 (errata 2.3 with the modulation config, AgcAutoOn forced off, reserved/dead bits written with datasheet defaults).",
+    "Sequences of two operations, and of three (X ; sleep / standby / chip reset ; Y of the same kind), run on ONE driver instance (state cached inside the driver is visible; SX127x triples are compared with a fresh driver instance on the same registers). Trusted: the C reference as packaged; the datasheet PA/image-calibration tables fed to the reference (SWL2001 leaves them to the BSP); documented errata/policy mirrors listed in DESIGN.md §3 C13 (errata 2.3 with the modulation config, AgcAutoOn forced off, reserved/dead bits written with datasheet defaults).",
     "DESIGN.md §3 C13")
 
 chk("C14", "exploration", "explicit-state BFS over API call sequences of the real driver against datasheet chip models, with deviation-bounded fault and drop injection",
@@ -98,7 +98,7 @@ chk("C14", "exploration", "explicit-state BFS over API call sequences of the rea
     "DESIGN.md §3 C14")
 
 chk("C17", "exploration", "exhaustive input sweeps through the real drivers, SPI writes decoded with datasheet formulas",
-    "Through the real RadioKind implementations over a recording SPI: (a) set_channel for every 100 Hz LoRaWAN channel frequency plus a 1 kHz stride over 137-1020 MHz (thorough: every 1 Hz, 8.8e8 values per chip family), PLL word decoded and compared in exact integer arithmetic; (b) every power request -128..127 and i32 extremes x 8 chip/PA variants x 3 bands, PA registers decoded with the datasheet tables (clamped request, never above it, reserved bits intact); (c) every symbol timeout 0..65535; (d) every (SF,BW) x margin 0..1000 ms through the LoRaWAN adapter against 12.25 symbols + margin in exact rational arithmetic; (e) every raw packet-status value of both chip families against the datasheet conversions.",
+    "Through the real RadioKind implementations over a recording SPI: (a) set_channel for every 100 Hz LoRaWAN channel frequency plus a 1 kHz stride over 137-1020 MHz (thorough: every 1 Hz, 8.8e8 values per chip family), PLL word decoded and compared in exact integer arithmetic; (b) every power request -128..127 and i32 extremes x 8 chip/PA variants x 3 bands, PA registers decoded with the datasheet tables (clamped request, never above it, reserved bits intact), and pairs of requests in a row on one register-file chip model; (c) every symbol timeout 0..65535; (d) every (SF,BW) x margin 0..1000 ms through the LoRaWAN adapter against 12.25 symbols + margin in exact rational arithmetic; (e) every raw packet-status value of both chip families against the datasheet conversions.",
     "Trusted: the datasheet decode formulas transcribed in c17.rs; ST's characterisation admitted for the STM32WL 14 dBm row; for SX127x negative-SNR RSSI both the datasheet and the reference-driver formula are admitted.",
     "DESIGN.md §3 C17")
 
